@@ -221,6 +221,10 @@ func (e *Engine) frameSpecOf(fr *Frame, ct *Contract) *frameSpec {
 						for fi := 0; fi < s.NumFields(); fi++ {
 							if s.Field(fi).Name() == n.Name {
 								ref := vc.asRefStrict(base.v)
+								if structOf(types.Unalias(s.Field(fi).Type())) != nil {
+									// struct-valued field: its leaves live at the embedded struct's address
+									ref = vc.subAddr(pt.Elem(), fi, ref)
+								}
 								for _, k := range fieldKeysOf(pt.Elem(), fi) {
 									fs.locs[k] = append(fs.locs[k], ref)
 								}
@@ -265,7 +269,7 @@ func (e *Engine) frameSpecOf(fr *Frame, ct *Contract) *frameSpec {
 // frameGoal: "key k changed only where the frame allows" between entry and cur.
 // ok=false when the key is unconstrained by the frame.
 func (fs *frameSpec) frameGoal(vc *VC, k string, entry, cur, al0 T) (T, bool) {
-	if fs.heapAll || fs.wholeKeys[k] || k == "$alloc" || strings.HasPrefix(k, "$v") || cur.S == entry.S {
+	if fs.heapAll || fs.wholeKeys[k] || k == "$alloc" || strings.HasPrefix(k, "$v") || k == "Elem_any" || cur.S == entry.S {
 		return tTrue, false
 	}
 	switch {
